@@ -275,6 +275,10 @@ pub fn prefixes() -> Vec<Vec<Op>> {
         vec![Op::AddA, Op::AddB, Op::Commit],
         vec![Op::AddA, Op::Commit, Op::DelA, Op::AddA, Op::Commit, Op::MergeAll],
         vec![Op::AddA, Op::AddB, Op::Commit, Op::AddA, Op::Reopen],
+        // a committed segment whose entry carries the worker's own delete bitset (the batch deletes its first
+        // document inside the worker): later commits that delete from it go through both the entry's bitset
+        // and the segment's delete file
+        vec![Op::RunBatch, Op::AddB, Op::Commit],
     ]
 }
 
